@@ -761,6 +761,44 @@ def mon_known_C05(case, obs):
     return out
 
 
+def hook_cases(res, pid):
+    """interleavings INSIDE one handler that the event grain of the model does not have: the timeout
+    scan runs while ApplyResult._ack is in its on_timeout_set hook (result handler and timeout handler
+    are different threads) with the soft limit already elapsed.  Judged on the implementation's own
+    observations (not compared with the model): the job's worker gets the soft-limit signal exactly
+    once -- during that scan or a later one -- and never a second time."""
+    cases = []
+    for n in (1, 2):
+        for soft_job in (None, 2):
+            for dt in (3, 5):
+                for later in (0, 1, 2):
+                    cfg = dict(n=n, soft=None if soft_job else 2, hard=30, enable_timeouts=True)
+                    ev = [['apply', soft_job, None, None, None], ['ack_scan', 0, None, n - 1, dt, False]]
+                    ev += [['advance', 1], ['scan', False]] * later
+                    ev += [['ready', 0, None, True, 4], ['advance', 1], ['scan', False]]
+                    cases.append(dict(cfg=cfg, events=ev))
+    outs = run_impl(cases, timeout=300)
+    for c, o in zip(cases, outs):
+        obs = o['obs']
+        n_soft = 0
+        where = []
+        for k, (e, ob) in enumerate(zip(o['events'], obs)):
+            for p_, sg in ob['sigs']:
+                if sg == 10:
+                    n_soft += 1
+                    where.append(k)
+        if obs and obs[1]['exc']:
+            res.alarms.append(dict(signature='%s:scan-inside-ack-raises' % pid, what='%s raised %s' % (c['events'][1], obs[1]['exc']),
+                                   replay=dict(kind='pool-hook', case=c)))
+        elif n_soft != 1:
+            res.alarms.append(dict(signature='%s:soft-limit-elapsed-but-worker-signalled-%d-times' % (pid, n_soft),
+                                   what='the soft limit of job 0 had elapsed when the timeout handler scanned during its acknowledgement (and in %d later scans '
+                                        'before its result): its worker was sent the soft-limit signal %d times (events %s); history %s'
+                                        % (sum(1 for e in c['events'][2:] if e[0] == 'scan') - 1, n_soft, where, json.dumps(c['events'])),
+                                   replay=dict(kind='pool-hook', case=c)))
+    res.add_cov(evaluations=len(cases), traces=len(cases), hook_cases=len(cases))
+
+
 def mon_known_C10_two_jobs(case, obs):
     """recorded defect: the pass gives ONE slot back per reaped worker; a worker that held two
     slot-holding jobs whose slots were still out (one failed by the timeout scan or still
@@ -1676,6 +1714,14 @@ def pool_replay(path):
     d = json.load(open(path))
     rep = d.get('replay') or {}
     c = rep.get('case')
+    if rep.get('kind') == 'pool-hook':
+        out = run_impl([dict(cfg=c['cfg'], events=c['events'])])[0]
+        n_soft = 0
+        for e, o in zip(out['events'], out['obs']):
+            print(json.dumps(e), '->', json.dumps(dict(ret=o['ret'], exc=o['exc'], sigs=o['sigs'])))
+            n_soft += sum(1 for p_, sg in o['sigs'] if sg == 10)
+        print('soft-limit signals sent: %d (exactly one is right)' % n_soft)
+        return 0 if n_soft == 1 else 1
     if not c and rep.get('kind') == 'pool-closed':
         c = dict(cfg=rep['cfg'], events=rep['events'])      # the parent events of the closed-system schedule
     if not c:
